@@ -47,6 +47,45 @@ fn run_bfs<K: KeyT, V: ValT, const N: usize>(rep: &mut EngineReport, nk: u8, nv:
     rep.cx.merge(cx);
 }
 
+/// History mode: every operation sequence of length <= depth over the reduced alphabet, with NO
+/// state merging; the last op of each sequence is judged (so every (history, op) is judged once).
+/// Dead slots therefore hold every kind of stale content a history can leave behind.
+fn run_hist<K: KeyT, V: ValT, const N: usize>(rep: &mut EngineReport, nk: u8, nv: u8, depth: usize, threads: usize) {
+    use mc::bfs::Sys;
+    let sys = MapSys::<K, V, N>::new(nk, nv, Alpha::Hist);
+    let nops = sys.ops.len();
+    let mut cx = rep.cx.fork();
+    cx.here.config = format!("{} depth<={depth} (no state merging)", sys.config());
+    let t0 = std::time::Instant::now();
+    let mut total = 0u64;
+    for len in 1..=depth {
+        let n = nops.pow(len as u32);
+        total += n as u64;
+        mc::bfs::par_states(n, threads, &mut cx, |mut idx, lcx| {
+            let mut seq = vec![0u32; len];
+            for i in (0..len).rev() {
+                seq[i] = (idx % nops) as u32;
+                idx /= nops;
+            }
+            let (path, op) = seq.split_at(len - 1);
+            lcx.here.path_idx = path.to_vec();
+            lcx.here.path = path.iter().map(|i| sys.op_name(*i as usize)).collect();
+            lcx.here.op_idx = op[0];
+            sys.run(path, Some(op[0]), lcx);
+        });
+    }
+    rep.configs.push(
+        J::obj()
+            .set("config", cx.here.config.as_str())
+            .set("ops_in_alphabet", nops)
+            .set("sequences", total)
+            .set("wall_s", t0.elapsed().as_secs_f64()),
+    );
+    rep.states += total;
+    rep.transitions += cx.evaluations;
+    rep.cx.merge(cx);
+}
+
 fn run_replay<K: KeyT, V: ValT, const N: usize>(nk: u8, nv: u8, alpha: Alpha, path: &[u32], op: Option<u32>, props: PMask) -> i32 {
     let sys = MapSys::<K, V, N>::new(nk, nv, alpha);
     let (code, j) = mc::bfs::replay(&sys, path, op, props);
@@ -81,9 +120,14 @@ fn main() {
         let code = mc::with_n!(n, run_replay::<Kx, Vx>(nk, nv, alpha, &path, op, props));
         std::process::exit(code);
     }
+    let hist_depth = args.usize("hist", 0);
     for n in ns {
         let nk = (n + extra_k).max(1) as u8;
-        mc::with_n!(n, run_bfs::<Kx, Vx>(&mut rep, nk, nv, alpha, threads, &caps));
+        if alpha == Alpha::Hist {
+            mc::with_n!(n, run_hist::<Kx, Vx>(&mut rep, nk, nv, hist_depth.max(1), threads));
+        } else {
+            mc::with_n!(n, run_bfs::<Kx, Vx>(&mut rep, nk, nv, alpha, threads, &caps));
+        }
     }
     std::process::exit(rep.finish(args.get("out")));
 }
